@@ -12,12 +12,39 @@ def edgeAt (a : AG) (g eid s d l : String) : Option JV :=
   (a.getE g eid).bind fun r => if r.frm = s ∧ r.to = d ∧ r.label = l then some r.data else none
 
 /-- deleteGraphIndex recognises the two label fields of graph `g` by the first dot-component of the
-    field name.  (True for every name accepted by `validName`, which has no dot; that string fact
-    about `String.splitOn` is not proved here and is carried as a decidable side condition.) -/
+    field name.  True for every name accepted by `validName` (which has no dot):
+    `goodName_of_valid`. -/
 def GoodName (g : String) : Prop :=
   fieldGraph (labelField g "v") = g ∧ fieldGraph (labelField g "e") = g
 
 instance (g : String) : Decidable (GoodName g) := by unfold GoodName; infer_instance
+
+theorem takeWhile_noDot (xs ys : List Char) (h : ∀ c ∈ xs, c ≠ '.') :
+    (xs ++ '.' :: ys).takeWhile (· != '.') = xs := by
+  induction xs with
+  | nil => simp
+  | cons x xs ih =>
+    have hx : x ≠ '.' := h x (by simp)
+    simp [hx]
+    exact ih (fun c hc => h c (by simp [hc]))
+
+/-- A name the write API accepts contains no '.'. -/
+theorem validName_noDot {g : String} (hv : validName g = true) : ∀ c ∈ g.toList, c ≠ '.' := by
+  intro c hc hdot
+  subst hdot
+  simp only [validName, Bool.and_eq_true, Bool.not_eq_true', List.any_eq_false] at hv
+  exact hv.1.1 '.' hc (by decide)
+
+theorem fieldGraph_labelField {g : String} (kind : String) (hv : validName g = true) :
+    fieldGraph (labelField g kind) = g := by
+  have e : (labelField g kind).toList = g.toList ++ '.' :: (kind.toList ++ ".label".toList) := by
+    simp [labelField, String.toList_append]
+  unfold fieldGraph
+  rw [e, takeWhile_noDot _ _ (validName_noDot hv), String.ofList_toList]
+
+/-- The string fact the refinement needs, for every valid graph name. -/
+theorem goodName_of_valid {g : String} (hv : validName g = true) : GoodName g :=
+  ⟨fieldGraph_labelField "v" hv, fieldGraph_labelField "e" hv⟩
 
 /-- The part of the refinement relation that talks about keys (everything except timestamps). -/
 structure Inv (m : KV) (fields : List String) (a : AG) : Prop where
@@ -80,14 +107,13 @@ theorem goodName_iff (g : String) : goodName g = true ↔ GoodName g := by
 
 /-- Boolean side condition (see `NoReadd`). -/
 def noReadd (a : AG) : Op → Bool
-  | .addGraph g => !validName g || goodName g
+  | .addGraph _ => true
   | .addE g es => !a.graphs.contains g || noReaddAll g a (es.map .e)
   | .bulk g xs => !a.graphs.contains g || noReaddAll g a xs
   | _ => true
 
 /-- Side condition carving out the open finding C03-edge-readd (addE / bulk on an existing graph:
-    `noReaddAll`), and (for addGraph with a valid name) the string fact `GoodName` that is not
-    proved in Lean.  Decidable: it is a Boolean computation. -/
+    `noReaddAll`); every other operation satisfies it.  Decidable: it is a Boolean computation. -/
 def NoReadd (a : AG) (op : Op) : Prop := noReadd a op = true
 
 instance (a : AG) (op : Op) : Decidable (NoReadd a op) := by unfold NoReadd; infer_instance
@@ -106,11 +132,8 @@ theorem noReaddHist_cons (a : AG) (o : Op) (os : List Op) :
     NoReaddHist a (o :: os) ↔ NoReadd a o ∧ NoReaddHist (specStep a o).1 os := by
   simp [NoReaddHist, NoReadd, noReaddHist]
 
-theorem noReadd_addGraph {a : AG} {g : String} (h : NoReadd a (.addGraph g)) :
-    validName g = true → GoodName g := by
-  intro hv
-  simp only [NoReadd, noReadd, hv, Bool.not_true, Bool.false_or] at h
-  exact (goodName_iff g).1 h
+theorem noReadd_addGraph {a : AG} {g : String} (_h : NoReadd a (.addGraph g)) :
+    validName g = true → GoodName g := goodName_of_valid
 
 theorem noReadd_addE {a : AG} {g : String} {es : List EdgeIn} (h : NoReadd a (.addE g es)) :
     a.graphs.contains g = true → noReaddAll g a (es.map .e) = true := by
